@@ -68,7 +68,7 @@ install_pool()
 
 
 class Observation:
-    __slots__ = ('error', 'files', 'result', 'events', 'map_calls', 'paths', 'extra')
+    __slots__ = ('error', 'files', 'result', 'events', 'map_calls', 'paths', 'extra', 'program')
 
     def __init__(self):
         self.error = None
@@ -78,11 +78,13 @@ class Observation:
         self.map_calls = []
         self.paths = {}
         self.extra = None
+        self.program = None       # the Program object itself; only inside the run's own process (in_child)
 
     def __getstate__(self):
-        return {k: getattr(self, k) for k in self.__slots__}
+        return {k: getattr(self, k) for k in self.__slots__ if k != 'program'}
 
     def __setstate__(self, st):
+        self.program = None
         for k, v in st.items():
             setattr(self, k, v)
 
@@ -123,6 +125,7 @@ def _run_world_child(world, mode, extra, extensions, directory, keep_result, cpu
     if in_child is not None:
         obs.extra = in_child(obs)
     obs.result = None
+    obs.program = None
     obs.events = [ev for ev in obs.events if ev[0] != 'row']
     return obs
 
@@ -150,6 +153,7 @@ def _run_world(world, mode=None, extra=None, extensions=None, directory=None, ke
         res = prog.run()
         if keep_result:
             obs.result = res
+            obs.program = prog
         del prog
     except SystemExit as e:
         obs.error = 'SystemExit(%s)' % (e.code,)
